@@ -103,6 +103,9 @@ def run(ctx):
                 ops += ["msg 32 %d" % ms, "sign", "siginfo", "verify"]
                 msgs.append((32, ms))
             jobs.append((("plain", 1, seed, False), exes[(1, "dim2")], ops, None, 300, msgs))
+    for j in jobs:      # signer dump (H3s) and verifier taps (H4) on for every signature
+        j[2].insert(j[2].index("keygen") + 1, "setenv SQI_VERIF_TRACE 1")
+    ctx.lake(["driver"])
     ctx.log("running %d processes (%d sign calls planned)" % (len(jobs), sum(len(j[5]) for j in jobs)))
     res = signlib.run_many([(j[0], j[1], j[2], j[3], j[4]) for j in jobs], workers=16, keep=True)
     hist, nsig, nfail, nunmet = {}, 0, 0, 0
@@ -110,6 +113,7 @@ def run(ctx):
     def note(k):
         hist[k] = hist.get(k, 0) + 1
     bad_inv = []
+    book = []
     for j in jobs:
         key, exe, ops, env, to, msgs = j
         r = res[key]
@@ -119,6 +123,13 @@ def run(ctx):
             ctx.violation("crash:%s" % re.sub(r"0x[0-9a-f]+", "", r["crash"])[:100], "signer/verifier crashed (%s) during %s" % (r["crash"], r["where"]),
                           dict(level=l, variant="dim2", ops=ops, build="ref, hooks on", driver="tools/harness/drv_sign.c"))
             note("crash")
+        # signer dumps, one entry per sign op (the last dump of the op: signsteer may try several messages)
+        sdumps = []
+        for chunk in r["stderr_full"].split("drv-mark: ")[1:]:
+            if chunk.startswith("sign"):
+                m = re.findall(r"verif-sig:([^\n]*)", chunk)
+                sdumps.append(dict(kv.split("=", 1) for kv in m[-1].split()) if m else None)
+        vtap = None
         # walk the result stream: sign ... [sig ...] verify ...
         idx = 0
         cur = None
@@ -135,9 +146,12 @@ def run(ctx):
                     nfail += 1; note("L%d:explicit-failure" % l)
                 elif cur["ret"] == -1:
                     nunmet += 1; note("L%d:steering-unmet" % l)
+            elif ln.startswith("vtap "):
+                vtap = dict(kv.split("=", 1) for kv in ln.split()[1:])
             elif ln.startswith("sig ") and cur and cur["ret"] == 1:
                 f = ln.split()
                 cb = int(f[1]); coeff = int(f[2], 16); m = [int(x, 16) for x in f[3:7]]
+                cur["coeff"], cur["mat"], cur["dump"] = coeff, m, (sdumps[idx - 1] if idx - 1 < len(sdumps) else None)
                 n = P[l]["resp"] + 2
                 det = (m[0] * m[3] - m[1] * m[2]) % (1 << n)
                 inv = dict(chall_b0=cb == 0, range=all(0 <= x < (1 << n) for x in m), not_zero_mod2=any(x & 1 for x in m),
@@ -158,6 +172,12 @@ def run(ctx):
                     note("L%d:%s:%s" % (l, cur["msg"][0], cur["msg"][1] if cur["msg"][0].startswith("uv") else "x"))
                 if cur["msg"] and not isinstance(cur["msg"][0], str):
                     note("len=%d" % cur["msg"][0])
+                taps_ok = vtap is not None and (vtap.get("have") == "1111111" or (vtap.get("have") == "1011111" and cur["v2"] == 0))
+                if ln == "verify 1" and cur.get("mat") and cur.get("dump") and taps_ok:
+                    book.append((l, key, idx, dict(cur), dict(vtap)))
+                elif ln == "verify 1":
+                    note("book:incomplete-taps")
+                vtap = None
                 if ln != "verify 1":
                     ctx.violation("dim2:L%d:sign-ok-verify-rejects:v2=%d:bt=%d" % (l, cur["v2"], cur["bt"]),
                                   "honest signature rejected: level %d, v2=%d, backtracking=%d, message %s" % (l, cur["v2"], cur["bt"], cur["msg"]),
@@ -167,6 +187,45 @@ def run(ctx):
                 elif len(ctx.samples) < 6:
                     ctx.sample(dict(level=l, seed=key[2], message=cur["msg"], v2=cur["v2"], bt=cur["bt"], hints=cur["hints"], verify=1))
                 cur = None
+    # ---- per-signature bookkeeping correspondence: model predictions (SigBook) vs signer dump vs verifier taps
+    blines = ["sigbook.predict %s %x %x %x %x %x %x" % (base.phex(P[l]), c["bt"], c["v2"], *c["mat"]) for (l, key, idx, c, t) in book]
+    bout = ctx.driver(blines) if blines else []
+    drift = []
+    for (l, key, idx, c, t), out in zip(book, bout):
+        chl, pw, n, inr, col, op, oq, codd, detok = out.split()
+        d = c["dump"]
+        v = c["v2"]
+        exp = []      # (name, model / signer side, implementation / verifier side)
+        exp += [("phi_chall.length", chl, t["challlen"]), ("pow_dim2_deg_resp", pw, t["pow"]), ("matrix entries < 2^(resp+2)", "1", inr),
+                ("det = 2^v * odd (dual chain exists)", "1", detok), ("chosen column has an odd coordinate", "1", codd),
+                ("order of P' exactly 2^n", op, t["ordP"]), ("order of Q' exactly 2^n", oq, t["ordQ"]),
+                ("six kernel components of exact order 2^(pow+2)", "111111", t["ord"]),
+                ("challenge kernel: biscalar (1,H) = ladder(chall_coeff)", "1", t["kerpk"]), ("challenge kernel of order 2^f", "1", t["kerpkord"]),
+                ("j(E_com) signer = verifier", d["jcom"], t["jcom"]), ("j(E_chall) signer = verifier", d["jchall"], t["jchall"]),
+                ("j(codomain.E2 of the signer) = j(E1 of the verifier)", d["jchall2"], t["je1"]), ("j(E_aux2) = j(E2)", d["jaux2"], t["je2"]),
+                ("x(P') = x(B_resp_two.P)", d["xP"], t["xP"]), ("x(Q')", d["xQ"], t["xQ"]), ("x(P'-Q')", d["xPmQ"], t["xPmQ"]),
+                ("signer vec_chall = (1, chall_coeff)", "1,%x" % c["coeff"], d["vecchall"]), ("verifier hash = (1, chall_coeff)", "1,%x" % c["coeff"], t["chk"])]
+        if v > 0:
+            exp += [("small-chain kernel column", col, t["kercol"]), ("small-chain kernel of exact order 2^v", "1", t["kerord"]), ("small chain length", str(v), t["kerlen"])]
+            a, b = [int(x, 16) for x in d["vecresp"].split(",")]
+            exp.append(("signer's small kernel (a,b) primitive", "1", "1" if (a | b) & 1 else "0"))
+        else:
+            exp.append(("v = 0: tapped T1/T2/T1m2.P1 are the applied canonical basis", "111", t["eqT"]))
+        ma = [int(x, 16) for x in d["maux"].split(",")]
+        q = int(d["q"], 16)
+        exp += [("det(mat_Baux2_to_Baux2_can) odd (kernel_pair_invariant)", "1", str((ma[0] * ma[3] - ma[1] * ma[2]) & 1)),
+                ("q odd and q < 2^pow (aux_degree)", "1", "1" if (q & 1) and q < (1 << int(pw)) else "0")]
+        bad = [(nm, a, b) for nm, a, b in exp if a != b]
+        note("book:col=%s" % (col if v > 0 else "-"))
+        if bad:
+            drift.append(dict(level=l, key=list(key), sign_index=idx, v2=v, bt=c["bt"], disagreements=[(nm, a[:40], b[:40]) for nm, a, b in bad[:6]]))
+    ctx.evaluations += len(book) * 20
+    ctx.obligation("per-signature bookkeeping: model (SigBook) = signer dump = verifier taps on %d signatures (about 20 values each)" % len(book),
+                   len(book) > 0 and not drift, json.dumps(drift[:2])[:700])
+    for d in drift[:4]:
+        ctx.violation("drift:c01-bookkeeping:%s" % d["disagreements"][0][0][:60], "the code's bookkeeping and the model's disagree on a signature (level %d, v2=%d, bt=%d): %s"
+                      % (d["level"], d["v2"], d["bt"], d["disagreements"][0]), d, found=False)
+    ctx.coverage["bookkeeping_signatures"] = len(book)
     ctx.obligation("hypotheses of the C01 theorems hold on every real signature (chall_b = 0, entries < 2^(resp+2), matrix not 0 mod 2)",
                    not bad_inv, json.dumps(bad_inv[:3]))
     for d in bad_inv[:3]:
